@@ -485,6 +485,9 @@ func MaybeManyPairs(t *rapid.T) []Segment {
 		return CountedFrames(CountedSpec{N: total/(l+8) + 1, Len: l, Type: rapid.SampledFrom([]int{1005, 1077, 1230, 4000}).Draw(t, "countedType")})
 	}
 	n := rapid.SampledFrom([]int{4097, 5000, 9000}).Draw(t, "nPairs")
+	if Counted && rapid.IntRange(0, 2).Draw(t, "veryManyPairs") == 1 {
+		n = rapid.SampledFrom([]int{65537, 66000, 131100}).Draw(t, "nVeryManyPairs") // past 2^16 and 2^17 transitions
+	}
 	junk := []byte(rapid.SampledFrom([]string{"ab\n", "$G\r\n", "x"}).Draw(t, "pairJunk"))
 	frame := SmallValidFrame(t)
 	if len(frame) > 20 {
